@@ -7,7 +7,6 @@ import (
 	"errors"
 	"fmt"
 	"sort"
-	"strings"
 	"sync/atomic"
 	"time"
 
@@ -204,6 +203,18 @@ func c31RunInner(in c31In) (V, Verdict) {
 			}
 			return false
 		}
+		// every frame from some frame with a packet below the first pushed one up to j-1 is missing
+		skippedAfterHeadless := func(j int) bool {
+			for i := j - 1; i >= 0; i-- {
+				if got[fmt.Sprint(in.Frames[i])] {
+					return false
+				}
+				if hasBelow(in.Frames[i]) {
+					return true
+				}
+			}
+			return false
+		}
 		for j, fr := range in.Frames {
 			if got[fmt.Sprint(fr)] {
 				continue
@@ -212,11 +223,12 @@ func c31RunInner(in c31In) (V, Verdict) {
 			case hasBelow(fr):
 				failKnown("packet-below-first-pushed-seq-never-emitted",
 					fmt.Sprintf("loss-free stream, first pushed packet is stream index %d; frame %v (complete, delivered) never emitted", firstG, fr))
-			case j > 0 && hasBelow(in.Frames[j-1]):
-				// the frame before lost its head to the cause above and was dropped as a headless run by a
-				// forced build; purgeBuffers then advances active.head once more, over this frame's first packet
+			case skippedAfterHeadless(j):
+				// a frame before lost its head to the cause above and was dropped as a headless run by a
+				// forced build; purgeBuffers then advances active.head once more, over the next frame's
+				// first packet, which makes that frame headless in turn, and so on down the buffer
 				failKnown("frame-after-dropped-headless-run-skipped",
-					fmt.Sprintf("frame %v never emitted: the forced build that dropped the headless run %v before it also skipped its first packet", fr, in.Frames[j-1]))
+					fmt.Sprintf("frame %v never emitted: a forced build dropped the headless run before it and skipped its first packet", fr))
 			default:
 				failNew("complete-frame-not-emitted", fmt.Sprintf("loss-free stream within the reorder bound: frame %v never emitted", fr))
 			}
@@ -355,8 +367,9 @@ func c31CheckSample(s *media.Sample, k int, pushed map[string]c31Pushed, emitted
 	suffixOfPrev := false
 	if prevIdx >= 0 {
 		a := (*emitted)[prevIdx]
-		suffixOfPrev = a.epoch == e.epoch && len(e.keys) < len(a.keys) &&
-			strings.Join(a.keys[len(a.keys)-len(e.keys):], ",") == strings.Join(e.keys, ",")
+		// compared by stream index: a duplicate may have replaced a consumed packet in its slot meanwhile
+		suffixOfPrev = a.epoch == e.epoch && len(e.gs) < len(a.gs) &&
+			fmt.Sprint(a.gs[len(a.gs)-len(e.gs):]) == fmt.Sprint(e.gs)
 	}
 	for _, g := range e.gs {
 		if j, dup := seenG[g]; dup {
@@ -901,14 +914,14 @@ func init() {
 	Register(Spec[c31In]{
 		ID: "C31", Suite: "detail", CoqImports: []string{"Check.C31"},
 		CoqType: "list Z", CoqRun: "Check.C31.run_full",
-		Quick: 20, Thorough: 1500, Parallel: 16, Timeout: 120 * time.Second,
+		Quick: 20, Thorough: 600, Parallel: 16, Timeout: 120 * time.Second,
 		Corpus: c31Corpus, Gen: c31GenCase(true), Run: c31Run, Coq: c31Coq, Shrink: c31Shrink,
 	})
 	// long histories: the same observation compared through its digest
 	Register(Spec[c31In]{
 		ID: "C31", Suite: "streams", CoqImports: []string{"Check.C31"},
 		CoqType: "list Z", CoqRun: "Check.C31.run_digest",
-		Quick: 120, Thorough: 6000, Parallel: 16, Timeout: 120 * time.Second,
+		Quick: 120, Thorough: 3000, Parallel: 16, Timeout: 120 * time.Second,
 		Gen: c31GenCase(false), Run: c31RunDigest, Coq: c31Coq, Shrink: c31Shrink,
 	})
 }
